@@ -582,7 +582,24 @@ func genWorldPlan(prop string, master uint64, run int) Plan {
 			kw[5] = r.Range(1, 3)
 		}
 		var snaps []int
+		pokes := 0
+		if r.Chance(1, 6) {
+			pokes = r.Range(1, 2) // pairs kept from an Iterate callback are written to later
+		}
 		for i := 0; i < n; i++ {
+			if pokes > 0 && r.Intn(10) < pokes {
+				if s := b.pickS(); s != 0 {
+					op := Op{K: "sp.poke", P: 1, H: s, W: r.Intn(4), A: QS(b.g.pick([]string{"x", "1", "&", " ", "%41", "é"}))}
+					if r.Chance(1, 4) {
+						op.B = op.A
+					}
+					b.add(op)
+					if r.Chance(2, 3) {
+						b.spMut(s, true)
+					}
+					continue
+				}
+			}
 			switch r.Weighted(kw) {
 			case 5:
 				s := b.pickS()
@@ -682,10 +699,38 @@ func genWorldPlan(prop string, master uint64, run int) Plan {
 		}
 		derive(u)
 		sw := setterWeights(r, []int{2, 1, 1, 2, 2, 2, 4, 3, 2})
-		kw := []int{8, r.Range(2, 8), r.Range(1, 3), r.Range(0, 2), r.Range(0, 2)} // setter, sp mutation, getsp, derive, observer
+		kw := []int{8, r.Range(2, 8), r.Range(1, 3), r.Range(0, 2), r.Range(0, 2), 0} // setter, sp mutation, getsp, derive, observer, adopt a list
+		if r.Chance(1, 6) {
+			// SetSearchParams is a setter operation too. A third, unrelated URL lends its list; lender and
+			// adopter share it from then on (that is what the caller asked for) and count as one object,
+			// but whatever is derived from either of them afterwards must be as independent as ever.
+			x := b.parse(false)
+			b.getsp(x)
+			kw[5] = r.Range(1, 2)
+			kw[3]++
+		}
 		for i := 0; i < n; i++ {
 			t := b.urls[r.Intn(len(b.urls))]
 			switch r.Weighted(kw) {
+			case 5:
+				if s := b.pickS(); s != 0 {
+					id := b.nextS
+					b.nextS++
+					b.add(Op{K: "setsp", P: b.party[t], H: t, W: s, D: id})
+					var keep []int
+					for _, x := range b.sps {
+						if b.spOf[x] != t {
+							keep = append(keep, x)
+						}
+					}
+					b.sps = append(keep, id)
+					b.spOf[id] = t
+					if r.Chance(1, 2) && len(b.urls) < 7 {
+						c := b.clone(t)
+						cs := b.getsp(c)
+						b.spMut(cs, true)
+					}
+				}
 			case 0:
 				b.set(t, r.Weighted(sw))
 			case 1:
